@@ -38,6 +38,7 @@ const CORPUS: &[&str] = &[
     "CAPTURE 0 \"a\" flat(duration: 1.0) ro[0]\nRAW-CAPTURE 0 \"b\" 1.0 ro[0]\nNONBLOCKING CAPTURE 1 \"a\" flat(duration: 1.0) ro[1]\n",
     // classical instructions interleaved, jump terminator, two blocks
     "MOVE x[0] 1\nPULSE 0 \"a\" flat(duration: 1.0)\nMOVE y[0] x[0]\nJUMP @l\nLABEL @l\nFENCE 0\nHALT\n",
+    "CAPTURE 0 \"a\" flat(duration: 1.0, iq: ro[1]) ro[0]\nRAW-CAPTURE 0 \"b\" ro[0] ro\nPULSE 0 \"a\" flat(duration: 1.0, iq: ro[0])\n",
     "",
 ];
 
